@@ -203,6 +203,11 @@ func Item(p lorawan.Payload) string {
 	case *lorawan.DataPayload:
 		return fmt.Sprintf("(IData %s)", cq.Bytes(v.Bytes))
 	}
+	// any other implementation of lorawan.Payload (the interface is open: a caller's own type, an
+	// application-layer Command): on the wire it is the bytes it marshals to
+	if b, err := p.MarshalBinary(); err == nil {
+		return fmt.Sprintf("(IData %s)", cq.Bytes(b))
+	}
 	return fmt.Sprintf("(IUnknown_%T)", p)
 }
 
